@@ -27,9 +27,10 @@ const (
 	HPlainErr                        // return errors.New(...)
 	HPanic                           // panic
 	HSlow                            // simulated work, then the device answers
+	HForeignExc                      // return an error wrapping the *packet.ErrorResponseTCP of a downstream exchange (other transaction id and unit id), as a gateway handler does
 )
 
-var handlerModeNames = [...]string{"normal", "typed_error_ctor", "typed_error_filled", "plain_error", "panic", "slow"}
+var handlerModeNames = [...]string{"normal", "typed_error_ctor", "typed_error_filled", "plain_error", "panic", "slow", "wrapped_downstream_exception"}
 
 func (h HandlerMode) String() string { return handlerModeNames[h] }
 
@@ -66,6 +67,8 @@ type SrvScenario struct {
 	Race             bool // race mode: free-running goroutines, no monitors
 	SharedHandlerErr bool // typed handler errors are one shared value (sentinel idiom)
 	LongPauses       bool // some client pauses last many simulated seconds: allow the scheduler the steps the polling server needs
+	ScratchReplies   bool // the handler hands out its replies as views of one scratch buffer (valid until its next call)
+	OwnAssembler     bool // the application sets AssemblerCreatorFunc itself: func(h) { return &server.ModbusTCPAssembler{Handler: h} }
 }
 
 type SrvConnOut struct {
@@ -111,6 +114,8 @@ type srvHandler struct {
 	mu        sync.Mutex
 	n         int
 	held      []heldReq // requests the handler was given, kept beyond the call (a journalling handler does that)
+	scratch   bool      // replies are handed out as views of one buffer the handler owns and overwrites at its next call
+	buf       []byte
 }
 
 type heldReq struct {
@@ -168,6 +173,10 @@ func (h *srvHandler) Handle(ctx context.Context, req packet.Request) (packet.Res
 		return nil, &packet.ErrorParseTCP{Message: "handler refuses", Packet: packet.ErrorResponseTCP{TransactionID: tid, UnitID: unit, Function: req.FunctionCode(), Code: code}}
 	case HPlainErr:
 		return nil, errors.New("handler failed: database is down")
+	case HForeignExc:
+		// what modbus.Client.Do returns for a downstream device's exception, passed on with %w: its ids are those of the
+		// downstream exchange, not of this request
+		return nil, fmt.Errorf("downstream device refused: %w", &packet.ErrorResponseTCP{TransactionID: tid ^ 0x5a5a, UnitID: unit ^ 0x21, Function: req.FunctionCode(), Code: 2})
 	case HPanic:
 		// what handlers panic with in practice: a string, an error, a runtime error, a value of a type that cannot be compared
 		switch h.seed % 4 { // one kind per run: a handler that fails keeps failing the same way
@@ -193,6 +202,16 @@ func (h *srvHandler) Handle(ctx context.Context, req packet.Request) (packet.Res
 		return nil, errors.New("handler could not unframe the request it was given")
 	}
 	rp := h.device(unit).Exec(pdu)
+	if h.scratch {
+		// a handler that builds every reply in its own scratch buffer: the bytes are valid until its next call
+		h.mu.Lock()
+		defer h.mu.Unlock()
+		for i := range h.buf {
+			h.buf[i] = 0xEE
+		}
+		h.buf = append(h.buf[:0], FrameTCP(tid, unit, rp)...)
+		return rawResp{fc: req.FunctionCode(), b: h.buf}, nil
+	}
 	return rawResp{fc: req.FunctionCode(), b: FrameTCP(tid, unit, rp)}, nil
 }
 
@@ -229,6 +248,7 @@ func RunSrv(rc *RunCtx, sc *SrvScenario, sched *Tape, seed uint64, twinReplyLens
 			h.modes[r.TID] = r
 		}
 	}
+	h.scratch = sc.ScratchReplies && len(sc.Conns) == 1 // (one scratch buffer serves one connection's handler calls, which are sequential)
 	var emu sync.Mutex
 	srv := &server.Server{
 		ReadTimeout: sc.ReadTimeout,
@@ -237,6 +257,12 @@ func RunSrv(rc *RunCtx, sc *SrvScenario, sched *Tape, seed uint64, twinReplyLens
 			out.Errors = append(out.Errors, err.Error())
 			emu.Unlock()
 		},
+	}
+	if sc.OwnAssembler {
+		// what the default does, written out by the application (to wrap or instrument the assembler)
+		srv.AssemblerCreatorFunc = func(handler server.ModbusHandler) server.PacketAssembler {
+			return &server.ModbusTCPAssembler{Handler: handler}
+		}
 	}
 	connIndex := map[*Conn]int{}
 	written := map[int]int{}
